@@ -3,6 +3,7 @@ package main
 import (
 	"fmt"
 	"go/token"
+	"go/types"
 	"strings"
 
 	"golang.org/x/tools/go/ssa"
@@ -55,7 +56,7 @@ func boundFacts(site ssa.Instruction, idx ssa.Value) (lower, upper bool) {
 		if !ok {
 			return 0
 		}
-		if same(b.X) && !isConstZero(b.Y) {
+		if same(b.X) && !isConstZero(b.Y) && !peerControlled(b.Y) {
 			switch b.Op {
 			case token.GEQ, token.GTR: // idx >= n (true => out of range)
 				return tern(val, -1, 1)
@@ -63,7 +64,7 @@ func boundFacts(site ssa.Instruction, idx ssa.Value) (lower, upper bool) {
 				return tern(val, 1, -1)
 			}
 		}
-		if same(b.Y) && !isConstZero(b.X) {
+		if same(b.Y) && !isConstZero(b.X) && !peerControlled(b.X) {
 			switch b.Op {
 			case token.LEQ, token.LSS: // n <= idx
 				return tern(val, -1, 1)
@@ -77,6 +78,26 @@ func boundFacts(site ssa.Instruction, idx ssa.Value) (lower, upper bool) {
 }
 
 func isConstZero(v ssa.Value) bool { k, ok := intConst(v); return ok && k == 0 }
+
+// peerControlled: the value is computed from something a remote peer chooses (a
+// field of a wire message, or the length/content of a peer's bitfield). Such a
+// value is not an acceptable bound for an index.
+func peerControlled(v ssa.Value) bool {
+	return mentions(v, func(w ssa.Value) bool {
+		if n, ok := fieldName(w); ok {
+			if strings.HasPrefix(n, "gen/go/proto/p2p.") || n == "lib/torrent/scheduler/dispatch.peer.bitfield" {
+				return true
+			}
+		}
+		if cl, ok := w.(*ssa.Call); ok {
+			switch calleeName(cl.Common()) {
+			case "(*github.com/willf/bitset.BitSet).Len", "(*lib/torrent/scheduler/dispatch.syncBitfield).Len":
+				return true
+			}
+		}
+		return false
+	}, 6)
+}
 
 func tern(c bool, a, b int) int {
 	if c {
@@ -100,12 +121,35 @@ func sameIndexValue(v, idx ssa.Value) bool {
 		}
 		return x
 	}
-	return strip(v) == strip(idx)
+	a, b := strip(v), strip(idx)
+	if a == b {
+		return true
+	}
+	// two loads of the same field of the same object (go/ssa does no CSE): equal
+	// as long as the object is not written in between — message objects handed to
+	// a handler are owned by it.
+	la, ok1 := a.(*ssa.UnOp)
+	lb, ok2 := b.(*ssa.UnOp)
+	if ok1 && ok2 && la.Op == token.MUL && lb.Op == token.MUL {
+		fa, ok3 := la.X.(*ssa.FieldAddr)
+		fb, ok4 := lb.X.(*ssa.FieldAddr)
+		if ok3 && ok4 && fa.Field == fb.Field && types.Identical(fa.X.Type(), fb.X.Type()) && rootOf(fa.X) == rootOf(fb.X) {
+			return true
+		}
+	}
+	return false
 }
 
 // validatesIndexParam: fn returns a nil error only where both bounds of its
 // parameter p are established (summary used to lift bounds across calls).
 func validatesIndexParam(fn *ssa.Function, p *ssa.Parameter) bool {
+	return validatesIndexParamD(nil, fn, p, 0)
+}
+
+// validatesIndexParamD also accepts success returns that lie in the success
+// region of a call passing p to a callee that validates it — a static callee, or
+// an interface method all of whose repository implementations validate it.
+func validatesIndexParamD(c *Ctx, fn *ssa.Function, p *ssa.Parameter, depth int) bool {
 	n := 0
 	for _, ret := range returnsOf(fn) {
 		if k := classifyReturn(ret); k == RetFailure || k == RetNoError {
@@ -116,11 +160,94 @@ func validatesIndexParam(fn *ssa.Function, p *ssa.Parameter) bool {
 		}
 		n++
 		lo, up := boundFacts(ret, p)
-		if !lo || !up {
+		if lo && up {
+			continue
+		}
+		if c == nil || depth > 2 {
+			return false
+		}
+		via := false
+		for _, cs := range callsIn(fn) {
+			if len(errResults(cs.Instr)) == 0 {
+				continue
+			}
+			if !inSuccessRegion(cs.Instr, ret) {
+				// pass-through: the function returns exactly the callee's error, so its
+				// own success implies the callee's
+				same := false
+				if ev := errOperand(ret); ev != nil {
+					for _, e0 := range errResults(cs.Instr) {
+						for _, al := range errAliases(e0) {
+							if al == ev {
+								same = true
+							}
+						}
+					}
+				}
+				if !same {
+					continue
+				}
+			}
+			cc := cs.Instr.Common()
+			args := cc.Args
+			off := 0
+			if cc.IsInvoke() {
+				off = 1 // implementations have the receiver as Params[0]
+			}
+			for i, a := range args {
+				if !sameIndexValue(a, p) {
+					continue
+				}
+				var targets []*ssa.Function
+				if cc.IsInvoke() {
+					targets = implementationsOf(c, cc)
+				} else if g := c.Func(cs.Callee); g != nil {
+					targets = []*ssa.Function{g}
+				}
+				if len(targets) == 0 {
+					continue
+				}
+				all := true
+				nt := 0
+				for _, g := range targets {
+					if g == fn {
+						continue // a wrapper delegating to the interface it implements: not its own target
+					}
+					nt++
+					if i+off >= len(g.Params) || !validatesIndexParamD(c, g, g.Params[i+off], depth+1) {
+						all = false
+					}
+				}
+				if all && nt > 0 {
+					via = true
+				}
+			}
+		}
+		if !via {
 			return false
 		}
 	}
 	return n > 0
+}
+
+// implementationsOf lists the repository methods (outside mocks/fixtures) that an
+// interface method call can dispatch to.
+func implementationsOf(c *Ctx, cc *ssa.CallCommon) []*ssa.Function {
+	iface, ok := cc.Value.Type().Underlying().(*types.Interface)
+	if !ok {
+		return nil
+	}
+	var out []*ssa.Function
+	for _, fn := range c.Funcs {
+		if fn.Name() != cc.Method.Name() || fn.Signature.Recv() == nil || fn.Parent() != nil || c.isFixture(fn) {
+			continue
+		}
+		rt := fn.Signature.Recv().Type()
+		if types.Implements(rt, iface) || types.Implements(types.NewPointer(rt), iface) {
+			out = append(out, fn)
+		}
+	}
+	return out
 }
 
 // indexBounded: at site (in fn), idx has both bounds, directly, via the success
@@ -132,17 +259,32 @@ func indexBounded(c *Ctx, fn *ssa.Function, site ssa.Instruction, idx ssa.Value,
 		return true, "both bounds tested"
 	}
 	for _, cs := range callsIn(fn) {
-		g := c.Func(cs.Callee)
-		if g == nil || len(errResults(cs.Instr)) == 0 {
+		if len(errResults(cs.Instr)) == 0 {
 			continue
 		}
-		args := cs.Instr.Common().Args
-		for i, a := range args {
-			if !sameIndexValue(a, idx) || i >= len(g.Params) {
+		cc := cs.Instr.Common()
+		var targets []*ssa.Function
+		off := 0
+		if cc.IsInvoke() {
+			targets, off = implementationsOf(c, cc), 1
+		} else if g := c.Func(cs.Callee); g != nil {
+			targets = []*ssa.Function{g}
+		}
+		if len(targets) == 0 {
+			continue
+		}
+		for i, a := range cc.Args {
+			if !sameIndexValue(a, idx) {
 				continue
 			}
-			if validatesIndexParam(g, g.Params[i]) && inSuccessRegion(cs.Instr, site) {
-				return true, "validated by " + g.Name()
+			all := true
+			for _, g := range targets {
+				if i+off >= len(g.Params) || !validatesIndexParamD(c, g, g.Params[i+off], 0) {
+					all = false
+				}
+			}
+			if all && inSuccessRegion(cs.Instr, site) {
+				return true, "validated by " + lastSeg(cs.Callee)
 			}
 		}
 	}
